@@ -119,6 +119,8 @@ def cases(rng, tier):
             p["ax"] = rng.randint(0, 3)
             if f == "any0":
                 p["thr"] = rng.choice([0, 1, 1, 2])
+                if rng.random() < 0.35:
+                    p["raw"] = True      # any(axis=0) of the matrix itself (its cells' truth values), not of a comparison result
         if f in ("rows", "col_int", "col_range"):
             p["variant"] = rng.choice([0, 1, 2, 3])      # list / mask row selectors as plain Python lists (even) or ndarrays (odd)
         if f in ("rows", "col_int", "col_range") and rng.random() < 0.25:
@@ -193,6 +195,8 @@ def cases(rng, tier):
             rows.append(row)
         out.append({"inp": {"kind": "matrix", "rows": rows}, "cls": "2d", "f": "any0", "dtype": rng.choice(["int64", "uint8", "float64", "int32"]),
                     "ax": rng.randint(0, 3), "thr": rng.choice([0, 0, 0, 1])})
+        if rng.random() < 0.5:
+            out[-1]["raw"] = True
     return out
 
 
@@ -349,6 +353,8 @@ def run_impl(p):
                 return {"k": "val", "v": _norm((np.mean(rl, 0) if len(str(p["inp"])) % 2 else np.mean(rl, axis=0)) if ax == 2 else rl.mean(axis=cax))}
             if f == "any0":
                 thr = p.get("thr", 1)
+                if p.get("raw"):
+                    return {"k": "val", "v": _norm(np.any(rl, axis=0) if ax == 2 else rl.any(axis=cax))}
                 return {"k": "val", "v": _norm(np.any(rl > thr, axis=0) if ax == 2 else (rl > thr).any(axis=cax))}
             if f == "col_counts":
                 return {"k": "val", "v": _norm(rl.col_counts())}
@@ -413,7 +419,7 @@ def oracle(p):
             elif f == "mean0":
                 v = [float(np.sum(np.array([x[j] for x in rows if len(x) > j], dtype=np.float64)) / sum(1 for x in rows if len(x) > j)) for j in range(w)]
             elif f == "any0":
-                v = [bool(any(x[j] > p.get("thr", 1) for x in rows)) for j in range(w)]
+                v = [bool(any((x[j] != 0) if p.get("raw") else (x[j] > p.get("thr", 1)) for x in rows)) for j in range(w)]
             elif f == "col_counts":
                 v = [sum(1 for x in rows if len(x) > j) for j in range(w)]
             elif f == "ravel":
@@ -465,7 +471,7 @@ def lean_request(p):
     if f == "any0":
         if p["cls"] != "2d":
             return None
-        req["f"] = "col_any"; req["thr"] = p.get("thr", 1)
+        req["f"] = "col_any"; req["thr"] = 0 if p.get("raw") else p.get("thr", 1)      # (cells are >= 0 here: non-zero = above 0)
         return req
     if f in ("any", "all"):
         # the implementation reduces (rl > 1); feed the model the thresholded data
